@@ -392,6 +392,9 @@ impl Run {
         for (k, v) in &self.extra {
             cov.insert(k.clone(), v.clone());
         }
+        if std::env::var_os("VERIF_NO_GIANT").is_some() {
+            cov.insert("fallback_mode".into(), json!("the first attempt of this run was killed by an allocation failure inside the subject (it copies entity data, and the harness's virtual chunks can be exabytes long); this run skipped every entity longer than 16 MiB"));
+        }
         cov.insert(
             "build".into(),
             json!({"debug_assertions": cfg!(debug_assertions), "overflow_checks": overflow_checks_on()}),
